@@ -18,6 +18,7 @@ def run(run, model):
     run.do(rec.lookup, model)
     run.do(rec.call_args, model)
     run.do(rec.dispatch_closed, model, "C06.star-args")
+    run.do(rec.truth_protocol, model, "C06.truth-protocol")
     run.do(msg.args_listed, model, "C06.args-listed")
     run.do(msg.a_repr_rule, model, "C06.a-repr")
     from . import fwd
